@@ -497,6 +497,8 @@ var rtPolicies = []string{
 	`[["not", ["==", ".m?.k?", 2]], ["or", [[">", ".x?", 0], ["<=", ".y?", -1]]], ["and", [[">=", ".x?", 0], ["<", ".x?", 10]]]]`,
 	`[["any", ".to?[]?", ["==", ".", "c"]], ["==", ".l?[-1]?", "b"], ["==", ".m?[\"k\"]?", 1], ["not", ["==", ".to?[:1]?", ["z"]]]]`,
 	`[]`,
+	// connectives with exactly one operand, and none, at the top and nested: they are what they are
+	`[["or", [["like", ".s?", "h*"]]], ["and", [["==", ".x?", 1]]], ["not", ["and", [["or", [[">", ".x?", 0]]]]]], ["and", []], ["any", ".l?", ["or", [["==", ".", "b"]]]]]`,
 }
 
 var rtProbes []ipld.Node
@@ -513,6 +515,18 @@ func init() {
 }
 
 func policyBehaviourDiffers(p0, p1 policy.Policy) string {
+	// the same statements, one by one: as many, of the same kind, printing the same
+	if len(p0) != len(p1) {
+		return fmt.Sprintf("the policy has %d statements, the original %d", len(p1), len(p0))
+	}
+	for i := range p0 {
+		if p0[i].Kind() != p1[i].Kind() {
+			return fmt.Sprintf("statement %d is a %q, the original a %q", i, p1[i].Kind(), p0[i].Kind())
+		}
+		if s0, s1 := fmt.Sprint(p0[i]), fmt.Sprint(p1[i]); s0 != s1 {
+			return fmt.Sprintf("statement %d prints as %s, the original as %s", i, s1, s0)
+		}
+	}
 	for i, d := range rtProbes {
 		m0, _ := p0.Match(d)
 		m1, _ := p1.Match(d)
